@@ -47,7 +47,7 @@ var c20Reqs = []c20Req{
 	{"literal-and-variable-args", `query($i:Int,$n:Int,$s:String){ echo(i:$i, s:"lit") echo2(s:$s, i:4) nodes(n:$n, as:"A") { id } a { items(n:$n) { n } name(up:true) } }`,
 		[]map[string]interface{}{v("i", 5, "n", 3, "s", "sv"), v("i", 1, "n", 1), v("s", "only-s")}, nil},
 	{"typed-fragment-merge", `{ a { ...P } c { ...P } nodes(n:3) { ...P } } fragment P on Node { peer(as:"B") { id } ... on A { peer(as:"B") { ... on B { bOnly } } } ... on C { peer(as:"B") { name } } }`, nil, nil},
-	{"static-args", `{ echo(i:1, s:"a", e:BETA, f:{min:2}) echo2(l:[4,5]) a { items(n:3) { n } name(up:true) } }`, nil, nil},
+	{"static-args", `{ echo(i:1, s:"a", e:BETA, f:{min:2}) echo2(l:[4,5]) a { items(n:3) { n label kind owner { id name kind } } name(up:true) } }`, nil, nil},
 	{"union-default-resolve", `{ u { ... on A { aOnly items(n:1) { n } } ... on B { bOnly } } b { u { ... on A { id } ... on B { id } } } }`, nil, nil},
 }
 
@@ -590,6 +590,19 @@ func (c20) Run(t TestingT, scn json.RawMessage, tape *Tape) *Outcome {
 			o.Violate("C20/inaccurate-params", "execution %d (%s, client c%d): %s", sl.ord, sc.Entry, sl.ci+1, b)
 			break
 		}
+		// the path a resolver was given stays what it was
+		ex.rc.mu.Lock()
+		for p, arr := range ex.rc.PathArrs {
+			parts := make([]string, len(arr))
+			for i, k := range arr {
+				parts[i] = fmt.Sprint(k)
+			}
+			if got := strings.Join(parts, "."); got != p {
+				o.Violate("C20/path-changed-after-call", "execution %d: the response path handed to the resolver of %q reads %q afterwards", sl.ord, p, got)
+				break
+			}
+		}
+		ex.rc.mu.Unlock()
 		for p, n := range seen {
 			if n > 1 {
 				o.Violate("C20/resolved-twice", "execution %d: the field at %q was resolved %d times", sl.ord, p, n)
